@@ -13,6 +13,7 @@ CONSTANTS
   Dev_RestoreNoResume = FALSE
   Dev_RecreateErrorLost = FALSE
   Dev_ArmIgnoresClose = FALSE
+  Dev_DrainDropsLoss = FALSE
   Hist = FALSE
 INIT Init
 NEXT Next
@@ -21,6 +22,7 @@ CHECK_DEADLOCK FALSE
 VIEW view
 INVARIANT TypeOK
 INVARIANT InvAfterClose
+INVARIANT InvNoSilentLoss
 INVARIANT InvAllDoneAfterClose
 INVARIANT InvSubsSurvive
 INVARIANT InvAckOnce
